@@ -6,6 +6,7 @@ import (
 	"os"
 	"os/exec"
 	"path/filepath"
+	"strings"
 
 	"gosym/corpus"
 	"gosym/interp"
@@ -15,6 +16,11 @@ import (
 // sibling packages by the real generator; the harness lives in the v2 package
 // and imports the v1 package.
 func PrepareC04(ctx *Ctx) (*Prepared, error) {
+	return prepareEvo(ctx, []string{"VH_C04", "VH_C04B", "VH_C04C"}, "c04")
+}
+
+// prepareEvo builds the evolution pairs and one job per pair and harness.
+func prepareEvo(ctx *Ctx, harnesses []string, reach string) (*Prepared, error) {
 	tier := tierOf(ctx)
 	mod := filepath.Join(ctx.Work, "corp")
 	if err := os.MkdirAll(mod, 0o755); err != nil {
@@ -76,7 +82,7 @@ func PrepareC04(ctx *Ctx) (*Prepared, error) {
 		km := pr.V2.Kinds()
 		kinds[pr.Name] = km
 		kinds[pr.Name+"a"] = pr.V1.Kinds()
-		for _, h := range []string{"VH_C04", "VH_C04B", "VH_C04C"} {
+		for _, h := range harnesses {
 			j := &Job{Name: pr.Name + " " + pr.Shape + " " + h, Dir: mod, Patterns: []string{"./" + pr.Name}, Funcs: []string{"corp/" + pr.Name + "." + h}, Opt: jo,
 				Meta: map[string]string{"evolution": pr.Kind, "context": pr.Context}}
 			n := shardCount(hints.cost(ctx, j.Funcs[0]))
@@ -88,7 +94,7 @@ func PrepareC04(ctx *Ctx) (*Prepared, error) {
 					sj.Opt.ShardN, sj.Opt.ShardI, sj.Opt.ShardDepth = n, i, shardDepth
 				}
 				p.Jobs = append(p.Jobs, &sj)
-				p.ExpectReach[sj.Name] = []string{"c04"}
+				p.ExpectReach[sj.Name] = []string{reach}
 			}
 		}
 		p.Targets["corp/"+pr.Name] = &ReplayTarget{ModDir: mod, PkgPath: "corp/" + pr.Name, PkgDir: dir, PkgName: pr.Name, Vstub: "vh/vstub"}
@@ -103,7 +109,7 @@ func PrepareC04(ctx *Ctx) (*Prepared, error) {
 	}
 	p.Programs = 2 * len(pairs)
 	p.Bounds = map[string]interface{}{
-		"pairs":    "3 evolutions (one added int32 field; two added fields string+uint8 with a gap in the indices; a field the reader has deprecated but the peer still sends) x 6 nesting contexts of the evolved message (top level, struct field, array element, map value, message field, union branch), each followed by a sentinel field",
+		"pairs":    "3 evolutions (one added int32 field; two added fields string+uint8 with a gap in the indices; a field the reader has deprecated but the peer still sends) x 8 nesting contexts of the evolved message (top level, struct field, array element, map value, message field, union branch, field of a struct that is itself a struct field, field of a struct that is an array element), each followed by a sentinel field",
 		"values":   fmt.Sprintf("v2 values: all scalar leaves symbolic, arrays/maps of 0..%d elements, strings of 0..%d bytes, every nil/non-nil combination of message fields", tier.MaxArr, tier.MaxStr),
 		"decoders": "UnmarshalBebop and DecodeBebop of the v1 code on MarshalBebop bytes of the v2 value",
 		"outside":  "several evolved messages in one record, evolutions of nested depth > 1, removed fields",
@@ -112,5 +118,57 @@ func PrepareC04(ctx *Ctx) (*Prepared, error) {
 	p.Stubs = []string{"vstub.FragReader", "time.Time abstract model"}
 	p.Explanation = "bounded symbolic execution of code generated from both schema versions (regenerated on this run): v1 decoders on v2 encodings, equality restricted to the fields v1 knows"
 	os.Remove(bopgen)
+	return p, nil
+}
+
+// withEvo adds to a codec check the evolution pairs of C04 under the given
+// harness: the property is then also checked on the encodings a newer writer
+// produces (unknown trailing fields on the wire), read by the older code.
+func withEvo(ctx *Ctx, p *Prepared, err error, harness, reach string) (*Prepared, error) {
+	if err != nil || p == nil {
+		return p, err
+	}
+	e, err := prepareEvo(ctx, []string{harness}, reach)
+	if err != nil {
+		return nil, err
+	}
+	isEvo := map[string]bool{}
+	for _, j := range e.Jobs {
+		if ctx.Tier != "thorough" {
+			// quick tier: the larger evolution (two added fields) and the container
+			// contexts whose value space is the largest are left to the thorough tier
+			c := j.Meta["context"]
+			if j.Meta["evolution"] == "add-two" || c == "map-value" || c == "struct-in-array" || c == "union-branch" {
+				delete(e.ExpectReach, j.Name)
+				continue
+			}
+		}
+		isEvo[j.Name] = true
+		p.Jobs = append(p.Jobs, j)
+	}
+	for k, v := range e.Targets {
+		p.Targets[k] = v
+	}
+	for k, v := range e.ExpectReach {
+		p.ExpectReach[k] = v
+	}
+	for k, v := range e.NotAnalysable {
+		p.NotAnalysable[k] = v
+	}
+	pn, en, pc, ec := p.Normalize, e.Normalize, p.CostKey, e.CostKey
+	p.Normalize = func(j *Job, pkg string, v *interp.Violation) Sig {
+		if isEvo[j.Name] {
+			return en(j, pkg, v)
+		}
+		return pn(j, pkg, v)
+	}
+	p.CostKey = func(fn string) string {
+		if strings.HasPrefix(fn, "corp/e") {
+			return ec(fn)
+		}
+		return pc(fn)
+	}
+	p.Programs += e.Programs
+	p.Bounds["newer_writer"] = "evolution pairs of C04: the newer version's encodings, read by the older version's decoders (thorough: all 24 pairs = 3 evolutions x 8 nesting contexts; quick: 10 pairs = {added int32 field, deprecated field still sent} x {top level, struct field, array element, message field, struct in struct})"
 	return p, nil
 }
